@@ -44,6 +44,13 @@ pub const NATIVE2: &[(&str, &str)] = &[
         "C_UPDATEGM",
         "(GM.update('ga', |x| f(a) * 0 + x), GM.update('gb', |x| f(a + 1) * 0 + x))",
     ),
+    // an object iterated from its back: `@next_back` (a Koto function called by the runtime
+    // from inside iterator.reversed / iterator.next_back) calls f
+    ("C_REVERSED", "iterator.reversed(NBIT(f, a)).count()"),
+    (
+        "C_NEXTBACK",
+        "(|it| (iterator.next_back(it), iterator.next_back(it), iterator.next_back(it)))(NBIT(f, a))",
+    ),
 ];
 
 #[derive(Clone, Copy, Debug, PartialEq, Eq, Hash)]
@@ -1932,6 +1939,15 @@ pub fn print(p: &Program, opts: &PrintOpts) -> Printed {
     pr.line(3, "n += 1000");
     pr.line(2, "caught(0, e)");
     pr.line(1, "return n");
+    // an object with `@next_back`: produces f(a), then f(a + 1), then ends
+    pr.line(0, "export NBIT = |f, a|");
+    pr.line(1, "n: 0");
+    pr.line(1, "@next: || null");
+    pr.line(1, "@next_back: ||");
+    pr.line(2, "self.n += 1");
+    pr.line(2, "if self.n > 2");
+    pr.line(3, "return null");
+    pr.line(2, "f(a + self.n - 1)");
     for (name, body) in NATIVE2 {
         pr.line(0, &format!("export {name} = |f, a|"));
         pr.line(1, &format!("zz = {body}"));
